@@ -26,6 +26,20 @@ Fixpoint tok_ops (fuel : nat) (ops : list N) (s : tsys) (n : N) : args :=
     end
   end.
 
+(* tok_fill <max_conns>: requests are issued and polled one after the other, every token is kept: how many complete at once,
+   and does the next one wait (0) or also complete (2)? *)
+Fixpoint tok_fill (fuel : nat) (i : N) (s : tsys) (ready : N) : N * N :=
+  match fuel with
+  | O => (ready, 2)
+  | S f =>
+    let '(r, s') := poll_fut i (new_fut i s) in
+    if r then tok_fill f (i + 1) s' (ready + 1) else (ready, 0)
+  end.
+
+Definition run_tok_fill (a : args) : args :=
+  let m := N.max 1 (argn a 0) in
+  let '(r, fl) := tok_fill (N.to_nat (m + 1)) 0 (init m) 0 in [[r; fl]].
+
 Definition run_tok_run (a : args) : args :=
   tok_ops (length (arg a 1)) (arg a 1) (init (N.max 1 (argn a 0))) 0.
 
